@@ -365,7 +365,7 @@ func runC08(e *Env) Outcome {
 	cfg := cfgd.Build()
 	sc := &c08Scenario{Format: f.String(), Cfg: cfgd}
 	var doc []byte
-	fam := t.Intn("family", 6)
+	fam := t.Intn("family", 7)
 	switch {
 	case fam <= 1 && f == gen.CBE:
 		doc, sc.Family = adversarialCBE(t)
@@ -398,6 +398,17 @@ func runC08(e *Env) Outcome {
 		n := []int{64, 512, 4096}[t.Intn("size", 3)]
 		doc = benignFamily(f, t.Intn("benign-family", 4), n)
 		sc.Family = "growing benign family"
+	case fam == 6 && f == gen.CBE:
+		// one array delivered in very many one-element chunks: cost must stay
+		// proportional to the bytes, not to bytes x chunks
+		n := []int{500, 5000, 30000}[t.Intn("size", 3)]
+		doc = []byte{0x81, 0x00, []byte{0x90, 0x93, 0x91}[t.Intn("tiny-kind", 3)]}
+		for i := 0; i < n; i++ {
+			doc = append(doc, 0x03, 'a'+byte(i%26)) // chunk of 1 element, more follow
+		}
+		doc = append(doc, 0x02, 'z') // final chunk
+		sc.Family = fmt.Sprintf("one array in %d one-element chunks", n+1)
+		e.Count("fault:many-tiny-chunks", 1)
 	default:
 		n := []int{100, 1000, 2500}[t.Intn("size", 3)]
 		doc = deepDoc(f, n, t.Intn("deep-kind", 3))
@@ -446,7 +457,7 @@ func runC08(e *Env) Outcome {
 		budget += 8 * cfg.Rules.MaxArraySizeBytes
 	}
 	sc.Alloc, sc.Budget, sc.Base, sc.Steps = alloc, budget, base, steps
-	e.Seen(len(sc.Faults) > 0 || strings.HasPrefix(sc.Family, "adversarial") || strings.HasPrefix(sc.Family, "container"), sig)
+	e.Seen(len(sc.Faults) > 0 || strings.HasPrefix(sc.Family, "adversarial") || strings.HasPrefix(sc.Family, "container") || strings.HasPrefix(sc.Family, "one array"), sig)
 	e.Count("measured_decodes", 1)
 	e.Count("work_steps", steps)
 	if res.Panic != nil {
